@@ -183,6 +183,49 @@ fn kind_of(step: Step) -> Option<ErrorKind> {
 }
 
 /// Execute one history and check it call by call.  Err((sig, msg)) on the first broken rule.
+/// A value whose Display keeps writing its pieces after one of them failed and reports the first failure at the end.
+struct Eager<'a>(&'a [&'a str]);
+
+impl std::fmt::Display for Eager<'_> {
+    fn fmt(&self, f: &mut std::fmt::Formatter<'_>) -> std::fmt::Result {
+        let mut r = Ok(());
+        for p in self.0 {
+            r = r.and(f.write_str(p));
+        }
+        r
+    }
+}
+
+/// The error a formatted write returns is one of the inner writer's fatal errors, also when later pieces of the same
+/// call are accepted again (only the kind is compared: what such a value delivers after the failure is its own business).
+pub fn check_eager_display(script: &[Step], wrap: Wrap) -> Result<(), (String, String)> {
+    let shared = Rc::new(RefCell::new(Shared { script: script.to_vec(), ..Default::default() }));
+    let boxed: Box<dyn Write> = Box::new(Scripted(shared.clone()));
+    let mut stream = match wrap {
+        Wrap::Strip => Stream::Strip(anstream::StripStream::new(boxed)),
+        Wrap::AutoNever => Stream::Auto(anstream::AutoStream::never(boxed)),
+    };
+    let r = write!(stream.w(), "{}", Eager(&["ab\x1b[1m", "cd", "\x1b[0mef", "g"]));
+    let sh = shared.borrow();
+    // (several pieces may fail in one call: any of the inner writer's fatal errors is an acceptable report)
+    let fatal: Vec<ErrorKind> = sh
+        .calls
+        .iter()
+        .filter_map(|c| match c.step {
+            Step::WouldBlock => Some(ErrorKind::WouldBlock),
+            Step::Other => Some(ErrorKind::Other),
+            Step::Accept(0) if !c.offered.is_empty() => Some(ErrorKind::WriteZero),
+            _ => None,
+        })
+        .collect();
+    match r {
+        Ok(()) if fatal.is_empty() => Ok(()),
+        Err(e) if fatal.contains(&e.kind()) => Ok(()),
+        Ok(()) => Err((format!("c06:{wrap:?}/WriteFmtEager:error-turned-into-success"), format!("script {script:?}: the inner writer failed with {fatal:?} but the formatted write returned Ok"))),
+        Err(e) => Err((format!("c06:{wrap:?}/WriteFmtEager:error-kind"), format!("script {script:?}: returned Err({:?}) but the inner writer's fatal faults were {fatal:?}", e.kind()))),
+    }
+}
+
 pub fn run_history(run: &Run<'_>, st: Option<&mut Stats>) -> Result<(), (String, String)> {
     let shared = Rc::new(RefCell::new(Shared { script: run.script.to_vec(), raw_write_all: run.raw_write_all, ..Default::default() }));
     let boxed: Box<dyn Write> = Box::new(Scripted(shared.clone()));
@@ -557,6 +600,22 @@ pub fn run(cfg: &Cfg) -> Stats {
             }
             idx += n;
         }
+        // a Display value that goes on after a failed piece: every script
+        let mut idx = shard;
+        while idx < nscripts {
+            gen::enum_decode(idx, STEPS.len() as u64, &mut digits);
+            let script: Vec<Step> = digits.iter().map(|d| STEPS[*d]).collect();
+            for wrap in [Wrap::Strip, Wrap::AutoNever] {
+                st.eval();
+                st.nontrivial_enum();
+                match crate::guarded(|| check_eager_display(&script, wrap)) {
+                    Ok(Ok(())) => {}
+                    Ok(Err((sig, msg))) => st.viol(&sig, msg, Case::new("c06-eager").n(wrap as i64).n(idx as i64)),
+                    Err(p) => st.viol("c06:panic", format!("panicked: {p}"), Case::new("c06-eager").n(wrap as i64).n(idx as i64)),
+                }
+            }
+            idx += n;
+        }
         // a literal formatted write that continues what an earlier call began: every case x every script
         let total_c = nscripts * LITERAL_CONTINUATIONS.len() as u64;
         let mut idx = shard;
@@ -684,6 +743,17 @@ pub fn run(cfg: &Cfg) -> Stats {
 }
 
 pub fn replay(case: &Case) -> Result<String, Viol> {
+    if case.kind == "c06-eager" {
+        let wrap = if case.nums.first().copied().unwrap_or(0) == 0 { Wrap::Strip } else { Wrap::AutoNever };
+        let mut digits = vec![];
+        gen::enum_decode(case.nums.get(1).copied().unwrap_or(0) as u64, STEPS.len() as u64, &mut digits);
+        let script: Vec<Step> = digits.iter().map(|d| STEPS[*d]).collect();
+        return match crate::guarded(|| check_eager_display(&script, wrap)) {
+            Ok(Ok(())) => Ok("the formatted write reports the inner writer's first fatal error".into()),
+            Ok(Err((sig, msg))) => Err(Viol { case: case.clone(), msg, sig }),
+            Err(p) => Err(Viol { case: case.clone(), msg: format!("panicked: {p}"), sig: "c06:panic".into() }),
+        };
+    }
     let input = case.bytes.first().cloned().unwrap_or_default();
     let probe = case.bytes.get(1).cloned().unwrap_or_else(|| b"X".to_vec());
     let nums = &case.nums;
